@@ -908,6 +908,10 @@ struct TypeMono<'a> {
     struct_base: IndexMap<TastIdent, StructDef>,
     /// generic types whose instances grow without bound (`enum Nest[T] { Node(Nest[Box[T]]) }`)
     too_large: IndexSet<String>,
+    /// the function whose body is being rewritten
+    current_fn: String,
+    /// operators of generic code applied, in an instance, to operands they are not defined for
+    bad_operands: IndexSet<String>,
 }
 
 impl<'a> TypeMono<'a> {
@@ -920,6 +924,64 @@ impl<'a> TypeMono<'a> {
             enum_base,
             struct_base,
             too_large: IndexSet::new(),
+            current_fn: String::new(),
+            bad_operands: IndexSet::new(),
+        }
+    }
+
+    /// Generic code is type-checked with its type parameters standing for any type; whether an
+    /// operator is defined for the operands is known at the instance: `a == b` at `Vec[int32]`,
+    /// `a < b` at a struct, `a + b` at bool.
+    fn check_operands(&mut self, op: &str, class: crate::env::OperandClass, ty: &Ty) {
+        if !self.in_domain(class, ty, &mut Vec::new()) {
+            self.bad_operands.insert(format!(
+                "operator {} is not defined for operands of type {:?} (in {})",
+                op, ty, self.current_fn
+            ));
+        }
+    }
+
+    fn in_domain(&self, class: crate::env::OperandClass, ty: &Ty, visiting: &mut Vec<String>) -> bool {
+        use crate::env::OperandClass;
+        let numeric = matches!(
+            ty,
+            Ty::TInt8
+                | Ty::TInt16
+                | Ty::TInt32
+                | Ty::TInt64
+                | Ty::TUint8
+                | Ty::TUint16
+                | Ty::TUint32
+                | Ty::TUint64
+                | Ty::TFloat32
+                | Ty::TFloat64
+        );
+        match class {
+            OperandClass::Arithmetic => numeric,
+            OperandClass::Additive | OperandClass::Ordered => numeric || matches!(ty, Ty::TString),
+            OperandClass::Equality => match ty {
+                Ty::TFunc { .. } | Ty::TVec { .. } => false,
+                Ty::TTuple { typs } => typs.iter().all(|t| self.in_domain(class, t, visiting)),
+                Ty::TArray { elem, .. } => self.in_domain(class, elem, visiting),
+                Ty::TStruct { name } | Ty::TEnum { name } => {
+                    if visiting.contains(name) {
+                        return true;
+                    }
+                    let ident = TastIdent::new(name);
+                    let stored: Vec<Ty> = if let Some(def) = self.monoenv.get_struct(&ident) {
+                        def.fields.iter().map(|(_, t)| t.clone()).collect()
+                    } else if let Some(def) = self.monoenv.get_enum(&ident) {
+                        def.variants.iter().flat_map(|(_, ts)| ts.iter().cloned()).collect()
+                    } else {
+                        return true;
+                    };
+                    visiting.push(name.clone());
+                    let ok = stored.iter().all(|t| self.in_domain(class, t, visiting));
+                    visiting.pop();
+                    ok
+                }
+                _ => true,
+            },
         }
     }
 
@@ -1201,15 +1263,43 @@ fn rewrite_expr_types(e: MonoExpr, m: &mut TypeMono<'_>) -> MonoExpr {
         }
         MonoExpr::EUnary { op, expr, ty } => MonoExpr::EUnary {
             op,
-            expr: Box::new(rewrite_expr_types(*expr, m)),
+            expr: {
+                let expr = rewrite_expr_types(*expr, m);
+                if matches!(op, common_defs::UnaryOp::Neg) {
+                    m.check_operands("-", crate::env::OperandClass::Arithmetic, &expr.get_ty());
+                }
+                Box::new(expr)
+            },
             ty: m.collapse_type_apps(&ty),
         },
-        MonoExpr::EBinary { op, lhs, rhs, ty } => MonoExpr::EBinary {
-            op,
-            lhs: Box::new(rewrite_expr_types(*lhs, m)),
-            rhs: Box::new(rewrite_expr_types(*rhs, m)),
-            ty: m.collapse_type_apps(&ty),
-        },
+        MonoExpr::EBinary { op, lhs, rhs, ty } => {
+            let lhs = rewrite_expr_types(*lhs, m);
+            let rhs = rewrite_expr_types(*rhs, m);
+            use crate::env::OperandClass;
+            use common_defs::BinaryOp;
+            let class = match op {
+                BinaryOp::Add => Some(("+", OperandClass::Additive)),
+                BinaryOp::Sub => Some(("-", OperandClass::Arithmetic)),
+                BinaryOp::Mul => Some(("*", OperandClass::Arithmetic)),
+                BinaryOp::Div => Some(("/", OperandClass::Arithmetic)),
+                BinaryOp::Less => Some(("<", OperandClass::Ordered)),
+                BinaryOp::Greater => Some((">", OperandClass::Ordered)),
+                BinaryOp::LessEq => Some(("<=", OperandClass::Ordered)),
+                BinaryOp::GreaterEq => Some((">=", OperandClass::Ordered)),
+                BinaryOp::Eq => Some(("==", OperandClass::Equality)),
+                BinaryOp::NotEq => Some(("!=", OperandClass::Equality)),
+                BinaryOp::And | BinaryOp::Or => None,
+            };
+            if let Some((symbol, class)) = class {
+                m.check_operands(symbol, class, &lhs.get_ty());
+            }
+            MonoExpr::EBinary {
+                op,
+                lhs: Box::new(lhs),
+                rhs: Box::new(rhs),
+                ty: m.collapse_type_apps(&ty),
+            }
+        }
         MonoExpr::ECall { func, args, ty } => MonoExpr::ECall {
             func: Box::new(rewrite_expr_types(*func, m)),
             args: args.into_iter().map(|a| rewrite_expr_types(a, m)).collect(),
@@ -1260,6 +1350,16 @@ pub fn mono_with_diagnostics(
     genv: GlobalTypeEnv,
     file: core::File,
 ) -> (MonoFile, GlobalMonoEnv, Vec<String>) {
+    let (file, env, unbounded, _) = mono_with_all_diagnostics(genv, file);
+    (file, env, unbounded)
+}
+
+/// Monomorphisation; the fourth component lists the operators of generic code that an instance
+/// applies to operands they are not defined for.
+pub fn mono_with_all_diagnostics(
+    genv: GlobalTypeEnv,
+    file: core::File,
+) -> (MonoFile, GlobalMonoEnv, Vec<String>, Vec<String>) {
     let mut monoenv = GlobalMonoEnv::from_genv(genv);
     // Build original function map
     let mut orig_fns: IndexMap<String, core::Fn> = IndexMap::new();
@@ -1319,6 +1419,7 @@ pub fn mono_with_diagnostics(
             .map(|(n, t)| (n, m.collapse_type_apps(&t)))
             .collect();
         let ret_ty = m.collapse_type_apps(&f.ret_ty);
+        m.current_fn = f.name.clone();
         let body = rewrite_expr_types(f.body, &mut m);
 
         // Store the function type in monoenv for use by later phases
@@ -1415,7 +1516,8 @@ pub fn mono_with_diagnostics(
 
     let mut too_deep = too_deep;
     too_deep.extend(m.too_large.iter().cloned());
+    let bad_operands: Vec<String> = m.bad_operands.iter().cloned().collect();
 
     let result = MonoFile { toplevels: new_fns };
-    (result, monoenv, too_deep)
+    (result, monoenv, too_deep, bad_operands)
 }
